@@ -259,3 +259,50 @@ Definition make_link (s : alias_state) (t : path) : alias_state :=
   end.
 Definition refresh_alias (before : alias_state) (d : dirs) : option alias_state :=
   option_map (fun s => make_link s (d_target d)) (remove_alias before).
+
+(** * The artifact tree of result.js and the files that are there afterwards
+    (pkg/cmd/result.go collectArtifactsRec; pkg/cmd/run.go
+    removeNonUploadableFiles, which runs after result.js is written). *)
+
+(** Editor temporary files: `#name#` and `name~`. *)
+Definition first_is (b : byte) (l : bytes) : bool := match l with c :: _ => Byte.eqb c b | [] => false end.
+Definition last_is (b : byte) (l : bytes) : bool := first_is b (rev l).
+Definition editor_temp (name : bytes) : bool :=
+  (first_is x23 name && last_is x23 name) || last_is x7e name.
+
+Inductive fkind := KReg | KSym | KOther.     (* regular file; symbolic link; fifo, socket, device *)
+Inductive node :=
+| NFile (name : bytes) (k : fkind)
+| NDir (name : bytes) (children : list node).
+
+(** The files (paths relative to the run directory) that collectArtifactsRec
+    puts in the tree.  Files of any kind are listed unless their name is an
+    editor temporary.  A directory with such a name is not listed itself, but
+    filepath.Walk still descends into it (the callback returns nil, not
+    SkipDir), so the files below it are listed all the same (in the parent's
+    list): as far as *files* go its name does not matter. *)
+Fixpoint listed_files (pre : list bytes) (n : node) : list (list bytes) :=
+  match n with
+  | NFile nm _ => if editor_temp nm then [] else [pre ++ [nm]]
+  | NDir nm cs => flat_map (listed_files (pre ++ [nm])) cs
+  end.
+
+(** The files removeNonUploadableFiles leaves: it removes what is neither a
+    regular file nor a symbolic link, and editor temporaries; directories are
+    never removed (nor skipped). *)
+Definition uploadable (k : fkind) : bool := match k with KOther => false | _ => true end.
+Fixpoint surviving_files (pre : list bytes) (n : node) : list (list bytes) :=
+  match n with
+  | NFile nm k => if uploadable k && negb (editor_temp nm) then [pre ++ [nm]] else []
+  | NDir nm cs => flat_map (surviving_files (pre ++ [nm])) cs
+  end.
+
+Fixpoint all_uploadable (n : node) : bool :=
+  match n with
+  | NFile _ k => uploadable k
+  | NDir _ cs => forallb all_uploadable cs
+  end.
+
+(** For the content of the run directory (the root itself is not named). *)
+Definition listed_in (cs : list node) : list (list bytes) := flat_map (listed_files []) cs.
+Definition surviving_in (cs : list node) : list (list bytes) := flat_map (surviving_files []) cs.
